@@ -205,6 +205,9 @@ def build(shape, gin, lists_on='target'):
 
   if kind == 'method':
     host = name + 'Host'
+    meth = name
+    if shape.get('method_contains_class'):
+      meth = host + '_run'      # a method whose own name contains its class's name
     meth_api = shape.get('method_api', 'register')
     deco = '@gin.register' if meth_api == 'register' else '@gin.configurable'
     if lists:
@@ -214,10 +217,11 @@ def build(shape, gin, lists_on='target'):
            f'  def __init__(self, hp=None):\n'
            f'    self.hp = hp\n'
            f'  {deco}\n'
-           f'  def {name}(self, {signature_source(shape)}):\n'
+           f'  def {meth}(self, {signature_source(shape)}):\n'
            f'    return {record_source(shape)}\n')
     exec(compile(src, f'<{modname}>', 'exec'), mod.__dict__)  # pylint: disable=exec-used
     cls = mod.__dict__[host]
+    name = meth
     original = inspect.unwrap(cls.__dict__[name])
     host_kwargs = {'module': gin_module} if gin_module is not None else {}
     # methods are only re-homed under their class by register / external_configurable
